@@ -63,8 +63,11 @@ class Engine:
             raise Unknown("wall-clock budget of this job exhausted")
         t = time.time()
         r = None
-        if not self.has_bv and not os.environ.get("VERIF_NO_INCREMENTAL"):
-            # Int/Bool-only path condition: incremental core (measured ~9x faster than a fresh solver per query)
+        if not os.environ.get("VERIF_NO_INCREMENTAL"):
+            # incremental core first (measured ~9x faster than a fresh solver per query on Int/Bool path conditions).  With bit-vector /
+            # uninterpreted-function content it is only given a short budget: z3's incremental core was measured to time out on mixed
+            # Int+BV64 queries that a fresh solver decides at once, so `unknown` falls through to the fresh-solver ladder below.
+            self.inc.set("timeout", int(self.timeout_ms) if not self.has_bv else 150)
             self.inc.push()
             try:
                 if extra:
